@@ -768,7 +768,7 @@ def mpc_psi0(z, prec, rnd=round_fast):
             break
         prev = szterm
         k += 1
-    return s
+    return mpc_pos(s, prec, rnd)
 
 # Currently unoptimized
 def mpf_psi(m, x, prec, rnd=round_fast):
